@@ -150,7 +150,10 @@ static void prop_forge(Tape &t, Ctx &c) {
     switch (edit) {
     case ED_NONE: break;
     case ED_BYTE: {
-        pos = (size_t) t.below(k); uint8_t v;
+        // positions: uniform, or biased to the places where an off-by-one in a comparison would hide (last bytes, DigestInfo, header)
+        switch (t.below(6)) { case 0: case 1: pos = (size_t) t.below(k); break; case 2: pos = k - 1; break; case 3: pos = k - 1 - (size_t) t.below(tlen + 1); break;
+                              case 4: pos = (size_t) t.below(3); break; default: pos = k - digest.size() - (size_t) t.below(2); }
+        uint8_t v;
         switch (t.below(5)) { case 0: v = block[pos] ^ 0x01; break; case 1: v = block[pos] ^ 0x80; break; case 2: v = 0x00; break; case 3: v = 0xFF; break; default: v = t.u8(); }
         block[pos] = v; break;
     }
@@ -174,7 +177,7 @@ static void prop_forge(Tape &t, Ctx &c) {
     case ED_SHIFT_L: { B T = raw ? digest : build_di(sp); B e = em_type1(k + 1, T); block.assign(e.begin() + 1, e.end()); break; }
     case ED_SIG_PLUS_N: plus_n = true; break;
     case ED_SIGLEN: siglen_delta = 1 + (unsigned) t.below(3); break;
-    case ED_WRONG_DIGEST: { B d2 = digest; pos = (size_t) t.below(d2.size()); d2[pos] ^= (uint8_t) (1u << t.below(8)); sp.digest = d2; di_edit = true; if (raw) block = em_type1(k, d2); break; }
+    case ED_WRONG_DIGEST: { B d2 = digest; pos = t.coin() ? d2.size() - 1 : (size_t) t.below(d2.size()); d2[pos] ^= (uint8_t) (1u << t.below(8)); sp.digest = d2; di_edit = true; if (raw) block = em_type1(k, d2); break; }
     case ED_OTHER_HASH: {
         ox::Hash h2 = pick_hash(t, false); if (h2 == h) h2 = (h == ox::H_SHA256) ? ox::H_SHA384 : ox::H_SHA256;
         block = canonical_em(k, h2, ox::hash(h2, msg.data(), msg.size())); break;
@@ -364,11 +367,11 @@ static void prop_pss_forge(Tape &t, Ctx &c) {
         size_t dblen = k - hLen - 1, ps = dblen - sEnc - 1;
         if (edit == PE_PS) { if (ps == 0) { edit = PE_SEP; } else { pos = (size_t) t.below(ps); if (pos == 0 && t.coin()) pos = ps - 1; em[pos] ^= (pos == 0) ? 0x40 : (uint8_t) (1u << t.below(8)); } }
         if (edit == PE_SEP) { pos = ps; em[pos] ^= (uint8_t) (t.coin() ? 0x01 : 0x03); }
-        if (edit == PE_H) { pos = dblen + (size_t) t.below(hLen); em[pos] ^= (uint8_t) (1u << t.below(8)); }
+        if (edit == PE_H) { pos = dblen + (t.coin() ? hLen - 1 : (size_t) t.below(hLen)); em[pos] ^= (uint8_t) (1u << t.below(8)); }
         if (edit == PE_BYTE) { pos = (size_t) t.below(k); uint8_t v = t.u8(); em[pos] = (em[pos] == v) ? (uint8_t) ~v : v; }
         break;
     }
-    case PE_WRONG_DIGEST: pos = (size_t) t.below(hLen); mh_ver[pos] ^= (uint8_t) (1u << t.below(8)); break;
+    case PE_WRONG_DIGEST: pos = t.coin() ? hLen - 1 : (size_t) t.below(hLen); mh_ver[pos] ^= (uint8_t) (1u << t.below(8)); break;
     case PE_SIG_PLUS_N: plus_n = true; break;
     case PE_SIGLEN: siglen_delta = 1 + (unsigned) t.below(2); break;
     default: break;
